@@ -133,3 +133,126 @@ func RuleAArrival(c *core.Ctx) {
 	}
 	c.Floor(rule, 2)
 }
+
+// RuleKAddCommutes — the journal builder accumulates directives in a way that
+// does not depend on the order in which they are added (C05: where a
+// directive stands in the files does not matter). Builder.Add is analysed as
+// the body of an unordered iteration over the directives (receiver = outer
+// state, directive = element) with the effect classes of family A; in
+// addition no error return of Add may depend on state accumulated from
+// earlier calls, and no entry is ever deleted from a builder map (deletion
+// makes an insert-if-absent test depend on what arrived in between).
+func RuleKAddCommutes(c *core.Ctx) {
+	const rule = "K-add-commutes"
+	p := c.P
+	add := p.Func(pkgJournal, "Builder.Add")
+	builderT := p.NamedType(pkgJournal, "Builder")
+	if add == nil || builderT == nil || len(add.Params) < 2 {
+		c.Anchor(rule, "journal.Builder.Add")
+		return
+	}
+	oa := newOrderAnalysis(c)
+	res := oa.analyseCallee(add, []vclass{clsOuter, clsElem})
+	fname := core.FuncName(add)
+	key := fname + ":effects commute"
+	bad := 0
+	seen := map[string]bool{}
+	for _, e := range res.effects {
+		k2 := key + ":" + e.kind + " " + e.symbol
+		if seen[k2] {
+			continue
+		}
+		seen[k2] = true
+		if reason, ok := orderExceptions[originName(e.fn)+":"+e.kind+" "+e.symbol]; ok {
+			c.Ob(rule, k2, e.pos, fname, core.Discharged, "reviewed exception: "+reason)
+			continue
+		}
+		bad++
+		v := core.Violated
+		if e.kind == "unknown-call" {
+			v = core.Undecided
+		}
+		c.Ob(rule, k2, e.pos, fname, v, "directives reach the builder in file order, which must not matter: "+e.detail+" [in "+originName(e.fn)+"]")
+	}
+	if bad == 0 {
+		c.Ob(rule, key, add.Pos(), fname, core.Discharged, "appends to the per-kind bags, get-or-create of the day, running minimum and maximum: all order-free")
+	}
+	// functions of the builder reachable from Add
+	reach := p.ReachLexical(add)
+	isBuilderField := func(fv *types.Var) bool {
+		st, ok := builderT.Underlying().(*types.Struct)
+		if !ok || fv == nil {
+			return false
+		}
+		for i := 0; i < st.NumFields(); i++ {
+			if st.Field(i) == fv {
+				return true
+			}
+		}
+		return false
+	}
+	// (a) no error depends on accumulated state
+	nret := 0
+	for fn := range reach {
+		if core.PkgPathOf(fn) != pkgJournal {
+			continue
+		}
+		for _, b := range fn.Blocks {
+			ret, ok := b.Instrs[len(b.Instrs)-1].(*ssa.Return)
+			if !ok {
+				continue
+			}
+			isErr := false
+			for _, rv := range ret.Results {
+				if core.IsErrorType(rv.Type()) && !core.IsNilConst(rv) {
+					isErr = true
+				}
+			}
+			if !isErr {
+				continue
+			}
+			nret++
+			k := fmt.Sprintf("%s:error return %d does not depend on earlier directives", core.FuncName(fn), successReturnIndex(fn, b))
+			why := ""
+			for _, cb := range fn.Blocks {
+				iff, ok := cb.Instrs[len(cb.Instrs)-1].(*ssa.If)
+				if !ok {
+					continue
+				}
+				if ctl, _ := core.Controls(cb, b); !ctl {
+					continue
+				}
+				for v := range originSet(p, iff.Cond, 1) {
+					if fa, ok := v.(*ssa.FieldAddr); ok && isBuilderField(core.FieldOf(fa)) {
+						why = "the condition " + describeValue(p, iff.Cond) + " reads " + p.FieldRef(core.FieldOf(fa))
+					}
+				}
+			}
+			if why == "" {
+				c.Ob(rule, k, ret.Pos(), core.FuncName(fn), core.Discharged, "controlled only by the directive itself")
+			} else {
+				c.Ob(rule, k, ret.Pos(), core.FuncName(fn), core.Violated, "a directive is rejected depending on which directives were added before it ("+why+"): the same journal is accepted or rejected depending on the layout of its files")
+			}
+		}
+	}
+	// (b) nothing is deleted from the builder's maps
+	for _, fn := range p.SrcFuncs() {
+		if !p.InModule(fn) {
+			continue
+		}
+		core.EachInstr(fn, func(ins ssa.Instruction) {
+			call, ok := ins.(ssa.CallInstruction)
+			if !ok {
+				return
+			}
+			b, ok := call.Common().Value.(*ssa.Builtin)
+			if !ok || b.Name() != "delete" {
+				return
+			}
+			if f, _ := containerRoot(call.Common().Args[0]); isBuilderField(f) {
+				c.Ob(rule, core.FuncName(fn)+":delete from "+p.FieldRef(f), ins.Pos(), core.FuncName(fn), core.Violated, "an entry is deleted from a map of the journal builder: what a later directive finds there depends on what arrived in between")
+			}
+		})
+	}
+	c.Floor(rule, 2)
+}
